@@ -644,6 +644,9 @@ func (t *tScreen) prepareKeys() {
 	t.prepareKey(keyPasteStart, ti.PasteStart)
 	t.prepareKey(keyPasteEnd, ti.PasteEnd)
 	t.prepareXtermModifiers()
+	t.prepareKey(KeyClear, ti.KeyClear)
+	t.prepareKeyMod(KeyInsert, ModShift, ti.KeyShfInsert)
+	t.prepareKeyMod(KeyDelete, ModShift, ti.KeyShfDelete)
 	t.prepareBracketedPaste()
 	t.prepareCursorStyles()
 	t.prepareUnderlines()
